@@ -173,6 +173,48 @@ def spec_alphabet(S, events):
     return out
 
 
+def same_target_groups(S, events, specs):
+    """Groups of specifiers (distinct values) addressing one key of one section node through
+    different path spellings."""
+    top = to_tree(events)
+    groups = {}
+    for sp in specs:
+        try:
+            comps, val = parse_spec(sp)
+        except MustReject:
+            continue
+        if len(comps) < 2 or val == "":
+            continue
+        node = top
+        ok = True
+        for comp in comps[:-1]:
+            bk = R.kt_basic_key(comp)
+            hit = None
+            for ch in node.children:
+                if isinstance(ch, Node) and ((ch.name and comp.lower() == ch.name.lower()) or
+                                             (bk is not None and bk == ch.type.lower())):
+                    hit = ch
+                    break
+            if hit is None:
+                ok = False
+                break
+            node = hit
+        if ok:
+            groups.setdefault((id(node), comps[-1].lower()), []).append((tuple(comps[:-1]), sp))
+    out = []
+    for (_, key), members in groups.items():
+        # one specifier per distinct path spelling, each with its own value so that order is observable
+        seen, g = set(), []
+        for i, (path, sp) in enumerate(members):
+            if path in seen:
+                continue
+            seen.add(path)
+            g.append(sp.split("=", 1)[0] + "=" + ("%d" % (i + 1) if sp.split("=", 1)[1].isdigit() else "val%d" % (i + 1)))
+        if len(g) >= 2:
+            out.append(g[:5])
+    return out[:6]
+
+
 def outcome(obs):
     if obs[0] == "ok":
         return ("tree", H.tree(obs[1]))
@@ -271,6 +313,17 @@ def shard(member, acc):
         for a, b in itertools.product(sub, repeat=2):
             check_list(S, sch, events, text, (a, b), acc, mid, resolves[a] or resolves[b])
             acc.transitions += 1
+        # every pair / triple of specifiers that reach the SAME key of the SAME section through different
+        # spellings of the path (by name, by type, upper case), with distinct values: order, dropping and
+        # consumption interact exactly there
+        for group in same_target_groups(S, events, specs):
+            for a, b in itertools.permutations(group, 2):
+                check_list(S, sch, events, text, (a, b), acc, mid, True)
+                acc.transitions += 1
+            if len(group) >= 3:
+                for tr in itertools.permutations(group[:4], 3):
+                    check_list(S, sch, events, text, tr, acc, mid, True)
+                    acc.transitions += 1
         if tier != "quick":
             sub3 = sub[:6]
             for tr in itertools.product(sub3, repeat=3):
